@@ -9,6 +9,8 @@ import (
 	"testing"
 )
 
+// case lines: menc <ktype> <vtype> {k:v,...}   (see c11_map_test.go)
+//             order <struct type>              -> the field indices in encoding order
 // case line:  e <type> <value> <suffix-hex>
 // output:     <hex of Marshal(value)> | <decode of hex++suffix> eq=<decoded value DeepEqual original>
 //             merr  (Marshal failed)
@@ -44,6 +46,8 @@ func c11Run(line string) string {
 			eq = fmt.Sprintf(" eq=%v", c11Equal(dst.Elem(), v))
 		}
 		return vhHex(enc) + " | " + out + eq
+	case "menc", "mdec":
+		return c11MapRun(f)
 	case "order": // order <type>: the field order fieldScaleIndices computes for a struct type
 		t := c11ParseTy(f[1])
 		v, idx, err := cache.fieldScaleIndices(reflect.New(t.goType()).Elem().Interface())
@@ -152,6 +156,9 @@ func c11Gen(r *vhRng) string {
 				return "order " + t.String()
 			}
 		}
+	}
+	if r.Chance(1, 25) { // a Go map
+		return c11MapGen(r, true)
 	}
 	t := c11GenTopTy(r)
 	v := c11GenVal(r, t)
